@@ -1,6 +1,6 @@
 ----------------------------- MODULE Trace_Head -----------------------------
 (* Total monitor for head-parsing traces: one event per exchange.          *)
-EXTENDS HeadParse, Json, IOUtils, TLC
+EXTENDS HeadParse, Json, IOUtils, TLC, TraceUtil
 
 Rec == ndJsonDeserialize(IOEnv.TRACE)
 VARIABLE l
@@ -14,7 +14,7 @@ TraceInit == l = 1
 TraceNext ==
   /\ l <= Len(Rec)
   /\ l' = l + 1
-  /\ \A g \in HeadViolations(Event(Rec[l])) : PrintT(<<"VIOL", l, Rec[l].id, HeadProp(g), g>>)
+  /\ \A g \in HeadViolations(Event(Rec[l])) : Viol(l, Rec[l].id, HeadProp(g), g, "")
 TraceSpec == TraceInit /\ [][TraceNext]_l
 TraceAccepted ==
   LET d == TLCGet("stats").diameter IN
